@@ -87,7 +87,86 @@ def make_case(seed, i):
         # reads of imported-looking names so that operations on them are observed
         for _ in range(r.randint(0, 2)):
             prog.append(["expr", ["load", r.choice(G.NAMES), [r.choice(G.ATTRS)]]])
+    add_docstrings(r, prog, top=True)
+    # imports that are read only by a doctest example (or named only in braces)
+    docs = []
+    c05.walk(prog, lambda s, p: docs.append(s) if s[0] == "doc" else None)
+    k0 = 0
+    while k0 < len(prog) and (prog[k0][0] == "doc" or (prog[k0][0] == "expr" and prog[k0][1][:2] == ["op", "doc"])
+                              or (prog[k0][0] == "from" and prog[k0][1] == ["__future__"])):
+        k0 += 1
+    for j, d in enumerate(docs[:3]):
+        if r.random() < .7:
+            alias = "dt%d" % j
+            if r.random() < .75:
+                d[1].append(["expr", ["load", alias, [r.choice(G.ATTRS)]]])
+            else:
+                d[2].append(alias)
+            prog.insert(k0, r.choice([["from", ["m"], [["d", alias]]], ["import", [[["pkg", "sub"], alias]]]]))
     return {"kind": "exec", "i": i, "prog": G.normalise(prog), "ns": [[G.REG, G.DEC]], "params": gen_params(r)}
+
+
+def gen_docstring(r):
+    exs = []
+    for _ in range(r.randint(0, 3)):
+        ld = ["load", r.choice(G.NAMES), [r.choice(G.ATTRS) for _ in range(r.choice([0, 1, 1, 2]))]]
+        k = r.random()
+        if k < .5:
+            exs.append(["expr", ld])
+        elif k < .8:
+            exs.append(["expr", ["op", "call", [ld, ["load", r.choice(G.NAMES), []]]]])
+        else:
+            exs.append(["assign", [["n", r.choice(G.NAMES)]], ld])
+    braces = [r.choice(G.NAMES) for _ in range(r.choice([0, 0, 1, 2]))]
+    return ["doc", exs, braces]
+
+
+def add_docstrings(r, body, top=False, container=False):
+    """docstrings with doctest examples and {brace} identifiers at the head of module / def / async def / class /
+    method bodies (and after an assignment, the Epydoc convention); some defs become `async def`"""
+    for s in list(body):
+        if s[0] in ("def", "class"):
+            if s[0] == "def" and r.random() < .4:
+                s[3]["async"] = True
+            add_docstrings(r, s[5], container=True)
+        elif s[0] == "for":
+            add_docstrings(r, s[3]); add_docstrings(r, s[4])
+        elif s[0] in ("while", "if"):
+            add_docstrings(r, s[2]); add_docstrings(r, s[3])
+        elif s[0] == "with":
+            add_docstrings(r, s[2])
+        elif s[0] == "try":
+            add_docstrings(r, s[1]); add_docstrings(r, s[3]); add_docstrings(r, s[4])
+    if top:
+        if body and body[0][0] == "expr" and body[0][1][:2] == ["op", "doc"]:
+            if r.random() < .6:
+                body[0] = gen_docstring(r)
+        return
+    if not container:
+        return
+    if r.random() < .35:
+        body.insert(0, gen_docstring(r))
+    elif len(body) > 2 and r.random() < .1:
+        k = r.randrange(1, len(body) - 1)
+        if body[k][0] == "assign":
+            body.insert(k + 1, gen_docstring(r))
+
+
+def docstrings(prog):
+    """the example sources of every docstring statement of the term, one list per docstring"""
+    out = []
+
+    def ex_src(x):
+        rr = G.Render(G._Recorder())
+        if x[0] == "expr":
+            return rr.expr(x[1])[0]
+        return " = ".join([rr.target(y)[0] for y in x[1]] + [rr.expr(x[2])[0]])
+
+    def f(s, p):
+        if s[0] == "doc" and s[1]:
+            out.append([ex_src(x) for x in s[1]])
+    c05.walk(prog, f)
+    return out
 
 
 def top_blocks(prog):
@@ -147,6 +226,7 @@ def impl_case(c):
     src = c["src"]
     params = ImportFormatParams(**c.get("params", {}))
     out = c05.impl_case({"kind": "free", "src": src, "ns": c["ns"]})
+    out["scandoc"] = scan_doc(src)
     out["blocks"] = ast_blocks(src)
     for b in out["blocks"]:
         s = ImportSet([Import.from_parts(f, a) for f, a in b["imports"]], ignore_shadowed=True)
@@ -160,19 +240,32 @@ def impl_case(c):
         except Exception as e:
             out[key] = {"exc": type(e).__name__, "msg": str(e)[:200]}
     nsn = [n for lv in c["ns"] for n in lv]
-    out["run"] = {"orig": run_tagged(src, nsn)}
+    docs = c.get("docs", [])
+    out["run"] = {"orig": run_tagged(src, nsn, docs)}
     for key in ("reformat", "tidy"):
         if "text" in out[key]:
-            out["run"][key] = run_tagged(out[key]["text"], nsn)
+            out["run"][key] = run_tagged(out[key]["text"], nsn, docs)
     return out
+
+
+def scan_doc(src):
+    from pyflyby._autoimp import scan_for_import_issues
+    from pyflyby._parse import PythonBlock
+    try:
+        m, u = scan_for_import_issues(PythonBlock(src), find_unused_imports=True, parse_docstrings=True)
+        return {"missing": [[ln, str(n)] for ln, n in m], "unused": [[ln, imp.fullname, imp.import_as] for ln, imp in u]}
+    except Exception as e:
+        return {"exc": type(e).__name__, "msg": str(e)[:200]}
 
 
 def impl_scan(c):
     """second phase: scan of the reformatted module (closed: the text is the rendering of a term)"""
-    return c05.impl_case({"kind": "free", "src": c["src"], "ns": c["ns"]})
+    out = c05.impl_case({"kind": "free", "src": c["src"], "ns": c["ns"]})
+    out["scandoc"] = scan_doc(c["src"])
+    return out
 
 
-def run_tagged(src, nsnames):
+def run_tagged(src, nsnames, docs=()):
     """execute under the tracing universe; every value derived from an import carries a provenance tag and every
     operation on a tagged value is logged"""
     import builtins
@@ -355,7 +448,19 @@ def run_tagged(src, nsnames):
                         elif p.kind == p.KEYWORD_ONLY:
                             kwargs[p.name] = V('arg')
                 log.append(('call', f.__name__))
-                f(*args, **kwargs)
+                res = f(*args, **kwargs)
+                if inspect.iscoroutine(res):
+                    try:
+                        res.send(None)              # run the body of an `async def` (it awaits nothing)
+                    except StopIteration:
+                        pass
+            # the doctest examples, as the doctest module runs them: per docstring, in a copy of the module globals
+            for exs in docs:
+                globs = Rec(dict(g))
+                globs.failed = g.failed
+                log.append(('doctest', str(len(exs))))
+                for ex in exs:
+                    exec(compile(ex + "\n", '<p>', 'exec'), globs)
         except Exception as e:
             exc = type(e).__name__ + ": " + str(e)[:80]
         fin = {k: tag(v) for k, v in g.items() if not k.startswith('__') and k not in (G.REG, G.DEC)}
@@ -707,7 +812,8 @@ def compare_runs(kind, base, got, rem, plain=()):
 
 def run_cases(ctx, cases):
     prepared = [c05.prepare(c) for c in cases]
-    wcases = [{"src": p[0], "ns": c["ns"], "params": c.get("params", {})} for c, p in zip(cases, prepared)]
+    wcases = [{"src": p[0], "ns": c["ns"], "params": c.get("params", {}), "docs": docstrings(c["prog"])}
+              for c, p in zip(cases, prepared)]
     impl = cm.run_impl("c02", "impl_case", wcases, timeout_case=30)
     # phase 1: Finder on the original program
     exprs = [c05.model_expr(c, p[1], p[2]) for c, p in zip(cases, prepared)]
@@ -734,10 +840,11 @@ def run_cases(ctx, cases):
     ref_unused = {}
     for k, (rc, rsrc, rterm, rids), mo, im2 in zip(ref_idx, ref_cases, ref_model, ref_impl):
         d = c05.decode(mo, rids)
-        ref_unused[k] = d["scan"]["unused"]
-        if "scan" in im2 and "exc" not in im2["scan"] and im2["scan"]["unused"] != d["scan"]["unused"]:
-            ctx.disagreement("scan_for_import_issues.unused (reformatted module)", {"src": rsrc, "ns": rc["ns"], "prog": rc["prog"], "kind": "free"},
-                             im2["scan"]["unused"], d["scan"]["unused"])
+        ref_unused[k] = d["scandoc"]["unused"]
+        if "scandoc" in im2 and "exc" not in im2["scandoc"] and im2["scandoc"]["unused"] != d["scandoc"]["unused"]:
+            ctx.disagreement("scan_for_import_issues(parse_docstrings=True).unused (reformatted module)",
+                             {"src": rsrc, "ns": rc["ns"], "prog": rc["prog"], "kind": "free"},
+                             im2["scandoc"]["unused"], d["scandoc"]["unused"])
     # phase 3: blocks through the ImportSet model
     bexprs, bindex = [], []
     for k, (c, im) in enumerate(zip(cases, impl)):
@@ -779,6 +886,8 @@ def check_case(ctx, case, src, ids, im, mo, blocks, have_ref):
             ctx.disagreement("scan_for_import_issues.missing", rec, im["scan"]["missing"], mo["scan"]["missing"])
         if im["scan"]["unused"] != mo["scan"]["unused"]:
             ctx.disagreement("scan_for_import_issues.unused", rec, im["scan"]["unused"], mo["scan"]["unused"])
+        if "exc" not in im["scandoc"] and im["scandoc"] != mo["scandoc"]:
+            ctx.disagreement("scan_for_import_issues(parse_docstrings=True)", rec, im["scandoc"], mo["scandoc"])
     for bi, b in enumerate(im["blocks"]):
         mb = blocks.get("orig", {}).get(bi)
         if mb is None:
